@@ -119,7 +119,7 @@ def build_chain(c, start, log, dtype=float):
     from inference.mcmc.pca import PcaChain
     post = TablePost(table_for(c["tabname"], c["T"]), WLO, outside=OUTSIDE, couple=c["couple"], log=log)
     n = c["n"]
-    st = np.array(start, dtype=float)
+    st = np.array(start, dtype=dtype)            # lattice starts are whole numbers: given as floats or, for every other behaviour, as integers
     kw = dict(posterior=post, start=st, widths=np.ones(n), temperature=float(c["T"]), display_progress=False)
     if c["kind"] == "pca":
         if c["mode"] == "box":
@@ -152,7 +152,7 @@ def observe(ch, c):
 def replay_behaviour(c, b, m):
     """run the real chain along behaviour b (from TLC); return observation dict"""
     log = []
-    ch, post = build_chain(c, b["start"], log)
+    ch, post = build_chain(c, b["start"], log, dtype=(int if (len(b["draws"]) + sum(int(v) for v in b["start"])) % 2 else float))
     nn = c["n"] if c["kind"] == "metropolis" else 1
     attempts = [{"k": d[0], "u": [mid(d[1], m)]} for d in b["draws"]]
     script = Script(attempts, n_normals=nn)
